@@ -14,7 +14,7 @@ PY
 }
 passset > /tmp/confirm_base.txt
 echo "baseline passing: $(wc -l < /tmp/confirm_base.txt)" >> $OUT
-for d in /verif/seeded/C*; do
+for d in ${SEEDS:-/verif/seeded/C*}; do
   id=$(basename $d)
   cd $WT && git checkout -q -- . && git clean -fdq
   (cd /tmp && PYTHONPATH=$WT timeout 600 /venv/bin/python $d/demo.py >/tmp/confirm_demo0.txt 2>&1); rc0=$?
